@@ -1260,6 +1260,10 @@ def _names_checker(cn, lo, hi, tag):
     def f(lines):
         got = _names_in(lines, cn)
         out = []
+        listed = [x for m in lines if m.verb == "353" and len(m.params) >= 4 and m.params[2] == cn
+                  for x in m.params[3].split()]
+        if len(listed) != len(set(listed)):
+            out.append("%s %s: a name is listed twice: %s" % (tag, cn, sorted(x for x in set(listed) if listed.count(x) > 1)))
         if not lo <= got:
             out.append("%s %s: missing %s" % (tag, cn, sorted(lo - got)))
         if not got <= hi:
@@ -1358,6 +1362,8 @@ def _who_checker(lo, hi):
         got = {}
         for m in lines:
             if m.verb == "352" and len(m.params) >= 7:
+                if m.params[5] in got:
+                    out.append("who: %s listed twice" % m.params[5])
                 got[m.params[5]] = (m.params[1], m.params[6])
         for n, v in lo.items():
             if n not in got:
@@ -1412,6 +1418,8 @@ def _list_checker(lo, hi):
         got = {}
         for m in lines:
             if m.verb == "322" and len(m.params) >= 4:
+                if m.params[1] in got:
+                    out.append("list: %s listed twice" % m.params[1])
                 got[m.params[1]] = (m.params[2], m.params[3])
         for n, v in lo.items():
             if n not in got:
